@@ -11,6 +11,7 @@ import (
 	"verif/harness/idsx"
 	"verif/harness/page"
 	"verif/harness/queryx"
+	"verif/harness/sigx"
 	"verif/harness/snapx"
 	"verif/harness/world"
 )
@@ -27,11 +28,17 @@ var commands = map[string]func(args []string){
 	"query-parse":       queryx.ParseCmd,
 	"query-trace":       queryx.EvalCmd,
 	"query-parse-trace": queryx.ParseTraceCmd,
+	"sig":               sigx.Run,
+	"sig-worker":        sigx.Worker,
 	"world":             world.RunCmd,
 	"world-worker":      world.WorkerCmd,
 }
 
 func main() {
+	// the file keyring of git-bug lives under the user's configuration directory: keep it inside the scratch space
+	if os.Getenv("VERIF_SCRATCH") != "" {
+		os.Setenv("XDG_CONFIG_HOME", os.Getenv("VERIF_SCRATCH")+"/xdg")
+	}
 	if len(os.Args) < 2 {
 		fmt.Fprintln(os.Stderr, "usage: vh <command> ...")
 		os.Exit(3)
